@@ -109,10 +109,34 @@ func constInt(t Term) (int64, bool) {
 
 func (e *Engine) mustConst(t Term, what string) int {
 	v, ok := constInt(t)
-	if !ok {
-		panic(hardErr("symbolic " + what + " not supported: " + e.tb.Show(t)))
+	if ok {
+		return int(v)
 	}
-	return int(v)
+	// the term may still have a single possible value under the path condition: ask the solver
+	if st := e.cur; st != nil && t.sort.k != sBool {
+		if e.sol.check(st.pc) == "sat" {
+			vals := e.sol.values([]Term{t})
+			if len(vals) == 1 {
+				if u, ok := parseModelUint(vals[0]); ok {
+					var c Term
+					if t.sort.k == sInt {
+						c = e.tb.Int(int64(u))
+					} else {
+						c = e.tb.BV(u, t.sort.w)
+					}
+					if e.sol.check(st.pc, e.tb.Not(e.tb.Eq(t, c))) == "unsat" {
+						cv, _ := constInt(c)
+						return int(cv)
+					}
+				}
+			}
+		}
+	}
+	s := e.tb.Show(t)
+	if len(s) > 300 {
+		s = s[:300] + "..."
+	}
+	panic(hardErr("symbolic " + what + " not supported: " + s))
 }
 
 // iconv converts an integer to another integer type.
